@@ -30,7 +30,7 @@ def string(s):
     b = s.encode('utf-8')
     if all((0x20 <= c <= 0x7e) or c >= 0x80 or c == 0x0a for c in b):
         return '"' + s.replace('"', '""') + '"'
-    return '(sb [' + ';'.join(str(c) for c in b) + '])'
+    return '(sb [' + ';'.join('%d%%nat' % c for c in b) + '])'
 
 
 def fl(x):
